@@ -292,6 +292,46 @@ func (t *taint) allocEscapes(a *ssa.Alloc, seen map[ssa.Value]bool) string {
 	return visit(a)
 }
 
+// checkReceiverAssigned: on every non-failure exit of decoder D the value of
+// the receiver (each field, for struct receivers) has been assigned by D and
+// does not read what the receiver held before the call.
+func checkReceiverAssigned(r *Report, rule string, D *ssa.Function) {
+	P := r.P
+	var paths [][]string
+	if st, ok := deref(D.Params[0].Type()).Underlying().(*types.Struct); ok {
+		for i := 0; i < st.NumFields(); i++ {
+			paths = append(paths, []string{st.Field(i).Name()})
+		}
+	} else {
+		paths = [][]string{nil}
+	}
+	for _, x := range P.factsOf(D).exits {
+		if x.kind == exitFailure {
+			continue
+		}
+		var stale []string
+		for _, pth := range paths {
+			v := P.terms.loadPath(D.Params[0], pth, x.ret)
+			old := false
+			v.walk(func(u *Term) {
+				if u.Op == "load" {
+					if rk, _ := termLoc(u.Args[0]); rk == "param:0" {
+						old = true
+					}
+				}
+			})
+			if old {
+				n := "*receiver"
+				if len(pth) > 0 {
+					n = pth[0]
+				}
+				stale = append(stale, n)
+			}
+		}
+		r.ob(rule, shortFn(D)+":assigned:"+exitID(P, D, x), D, x.ret, "the receiver is assigned from the input on this exit").check(len(stale) == 0, "assigned", "a non-failure exit leaves "+strings.Join(stale, ", ")+" holding (or depending on) what the destination held before the call")
+	}
+}
+
 func runC19(r *Report, tier string) {
 	P := r.P
 	r.rule("R19.1", "atomic: in every message/signature/countersignature/header-bucket/bstr-nil decoder (and the methods it forwards its receiver to) each instruction that writes memory rooted at the receiver - store, append/copy on receiver-derived slices, call whose summary writes the receiver - is followed only by success exits (or by the delegated verdict of that very call).")
@@ -365,6 +405,11 @@ func runC19(r *Report, tier string) {
 			}
 			o.check(bad == "", "whole-value store of "+truncate(vt.String(), 120), "stored value depends on the previous content: "+bad)
 		}
+	}
+	// R19.2: no success without assignment: at every non-failure exit of a
+	// decoder the receiver no longer holds (or depends on) its old content
+	for _, D := range decs {
+		checkReceiverAssigned(r, "R19.2", D)
 	}
 	// R19.2 decode destinations in the decoder family + bucket decoders
 	scope := map[*ssa.Function]bool{}
